@@ -24,7 +24,7 @@ TESTS = {
     "C12": [s1("TestC12_S1Deadlines", 40000, 250000, qshards=8), s1("TestC12_S3Published", 6000, 100000, timeout_t=2400)],
     "C13": [s1("TestC13_S1Sweep", 40000, 250000, qshards=6), s1("TestC13_ClockGate", 10000, 100000), s1("TestC13_S3Touches", 6000, 100000, timeout_t=2400), s1("TestC13_WheelModel", 30000, 500000), s1("TestC13_MassSweep", 1000, 15000, qshards=2, tshards=8)],
     "C14": [s1("TestC14_DrainProtocol", 8000, 150000, qshards=8, timeout_t=2400), s1("TestC14_S4Rounds", 150, 3000, timeout_t=2400)],
-    "C15": [s1("TestC15_SeqModel", 6000, 60000), s1("TestC15_Concurrent", 400, 4000, timeout_t=2400), s1("TestC15_CacheIteration", 200, 3000, timeout_t=2400), s1("TestC15_ChainSeq", 4000, 60000), s1("TestC15_ChainConcurrent", 300, 4000, timeout_t=2400)],
+    "C15": [s1("TestC15_SeqModel", 6000, 60000), s1("TestC15_Concurrent", 400, 4000, timeout_t=2400), s1("TestC15_CacheIteration", 200, 3000, timeout_t=2400), s1("TestC15_ChainSeq", 4000, 60000), s1("TestC15_ChainConcurrent", 300, 4000, timeout_t=2400), s1("TestC15_FloatKeys", 5000, 80000, qshards=2, tshards=4)],
     "C16": [s1("TestC16_SeqModel", 15000, 150000), s1("TestC16_Concurrent", 250, 3000, timeout_t=2400), s1("TestC16_S3", 6000, 80000, timeout_t=2400), s1("TestC16_S1Burst", 800, 8000), s1("TestC16_S4Writes", 300, 3000, timeout_t=2400)],
     "C17": [s1("TestC17_SeqModel", 20000, 300000), s1("TestC17_Concurrent", 300, 6000, timeout_t=2400), s1("TestC17_S3", 6000, 120000, timeout_t=2400), s1("TestC17_S1ReadBursts", 8000, 120000), s1("TestC17_StripeChurn", 1500, 40000, timeout_t=2400), s1("TestC17_S4CacheReads", 300, 3000, timeout_t=2400), s1("TestC17_S4ReadExtends", 150, 2000, timeout_t=2400)],
     "C18": [s1("TestC18_Sketch", 150000, 1500000, qshards=8), s1("TestC18_Admission", 60000, 1000000), s1("TestC18_CacheEstimates", 20000, 300000)],
